@@ -120,6 +120,8 @@ mod v1 {
         /// * `msg`: The message to send
         pub fn send(&self, msg: TMsg) {
             if self.tx.receiver_count() > 0 {
+                #[cfg(feature = "verif")]
+                crate::verif::point("outport.send.checked");
                 let _ = self.tx.send(Some(msg));
             }
         }
